@@ -24,16 +24,23 @@ def run(ctx):
     else:
         mcs = [("MCRP_small.cfg", "safety: n<=2, scripts<=3 + long, bounds 1/2, pool", False),
                ("MCRP_quick.cfg", "safety: n<=2, scripts<=2 + long, bounds 1/2, pool, fd", True),
-               ("MCRP_liveT.cfg", "liveness (termination under weak fairness), n<=2", False)]
-    _, mock, mockfd, pbf = rpipe.parallel(lambda: rpipe.design(ctx, mcs, workers_each=4),
-                                          lambda: rpipe.export(ctx, "mock"), lambda: rpipe.export(ctx, "mockfd"),
-                                          lambda: rpipe.export(ctx, "realpbf"))
+               ("MCRP_liveT.cfg", "liveness (termination under weak fairness), n<=2", False),
+               ("MCRP_big.cfg", "safety: 6 chunks, bounds 2/2 (both queues full), all faults, scripts<=1", False)]
+    _, mock, mockfd, pbf, big = rpipe.parallel(lambda: rpipe.design(ctx, mcs, workers_each=4),
+                                               lambda: rpipe.export(ctx, "mock"), lambda: rpipe.export(ctx, "mockfd"),
+                                               lambda: rpipe.export(ctx, "realpbf"), lambda: rpipe.export(ctx, "mockbig"))
     cases = []
     nseeds = 2 if quick else 5
     for i, c in enumerate(rpipe.sample([c for c in mock if faulty(c)], 160 if quick else 4000, rnd)):
         cases.append(rpipe.mk_case(i, "mock", c, rnd, nseeds))
     for i, c in enumerate(rpipe.sample([c for c in mockfd if faulty(c)], 60 if quick else 1500, rnd)):
         cases.append(rpipe.mk_case(i, "mockfd", c, rnd, nseeds))
+    # six chunks with the smallest real queue bounds: both queues are full and read thread, parser and consumer are all
+    # blocked or about to block when the consumer stops / a fault hits (the consumer waits a moment before its first call)
+    for i, c in enumerate(rpipe.sample(big, 70 if quick else 900, rnd)):
+        cases.append(rpipe.mk_case(i, "mockfd" if c["cfg"]["fd"] else "mock", c, rnd, nseeds, qin=2, qout=2,
+                                   start_delay_us=rnd.choice([0, 2000, 6000])))
+        cases[-1]["id"] = "big-%d" % i
     pbf = [c for c in pbf if faulty(c) and rpipe.mask_of(c["cfg"]) and rpipe.literal_reads_ok(c)]
     for i, c in enumerate(rpipe.sample(pbf, 80 if quick else 1500, rnd)):
         cases.append(rpipe.mk_case(i, "realpbf", c, rnd, nseeds, format="pbf", R=rnd.choice([3, 40]),
